@@ -345,7 +345,7 @@ def run(ctx):
     big = dict(MaxBase=4, MaxTxn=12, MaxClock=7, K=64, MaxLayers=3, MaxNewOid=8, MaxPack=2, MaxUndo=2, PrintObs=True)
     simc = dict(MaxBase=2, MaxTxn=6, MaxClock=3, K=64, MaxLayers=3, MaxNewOid=2, MaxPack=1, MaxUndo=2, PrintObs=True,
                 Metas=('m0', 'm1'))
-    num = 30 if q else 400
+    num = 20 if q else 400
     fams = {}
 
     def scripts_kw(k):
@@ -358,10 +358,12 @@ def run(ctx):
     for k in keys:
         n = model_name(k)
         b, c = k[0], 'temp' if k[2] else k[1]
-        fam = ds.families(b, c, random.Random(seed * 7919 + 11), extra=8 if q else 120, blob=len(k) > 3)
+        fam = ds.families(b, c, random.Random(seed * 7919 + 11), extra=4 if q else 120, blob=len(k) > 3)
         fams[k] = fam
         jobs.append((_job_scripts, (ctx.scratch, 'scripts-' + n, mconsts(k, mode=as_tree, **scripts_kw(k)),
                                     [s for _, s in fam], 2, to)))
+        if q and k[2] and len(k) > 3:
+            continue                 # quick: own changes with blobs replay the scenarios only
         jobs.append((_job_sim, (ctx.scratch, 'sim-' + n, mconsts(k, mode=as_tree, **sim_kw(k)), num, 70, seed + 1 + len(n), to)))
     import time
     t0 = time.time()
